@@ -498,3 +498,18 @@ func branchPruneCheck(w *World, r *Report, rule string) {
 	}
 	r.Check(okPrune, rule, "calculateBranch: skipped set pruned after all branches were evaluated", cb.Pos(), "no branch evaluation follows the pruning", "the skipped set is pruned while branches are still being evaluated: a target selected by an earlier branch and discarded by a later one stays skipped (order-dependent)")
 }
+
+// skipFlagOf: the skip flag of a DAG channel, located by type (its only bool field).
+func skipFlagOf(w *World) *types.Var {
+	st := w.Named("compose", "dagChannel").Underlying().(*types.Struct)
+	var f *types.Var
+	for i := 0; i < st.NumFields(); i++ {
+		if b, ok := st.Field(i).Type().Underlying().(*types.Basic); ok && b.Kind() == types.Bool {
+			f = st.Field(i)
+		}
+	}
+	if f == nil {
+		undecidedf("dagChannel has no bool field (skip flag)")
+	}
+	return f
+}
